@@ -394,11 +394,22 @@ def make_fn(name, spec, env):
         cast = env.maybe_fail(name, k)
         return apply_cast(body(*args), cast)
 
-    call.nin = arity
-    call.sim_name = name
-    call.__name__ = name
-    call.__qualname__ = name
-    return call
+    if spec.get('nin', False) or arity not in (1, 2, 3):
+        # declare the arity the way numpy ufuncs / RandomFunction samples do
+        call.nin = arity
+        fn = call
+    else:
+        # an ordinary Python function of that arity (the library inspects its signature)
+        if arity == 1:
+            fn = lambda x: call(x)              # noqa: E731
+        elif arity == 2:
+            fn = lambda x, y: call(x, y)        # noqa: E731
+        else:
+            fn = lambda x, y, z: call(x, y, z)  # noqa: E731
+    fn.sim_name = name
+    fn.__name__ = name
+    fn.__qualname__ = name
+    return fn
 
 
 def make_comparer(name, spec, env):
